@@ -97,10 +97,26 @@ def cells(tier, seed):
     return out
 
 
+WAVE_FORMS = {}
+
+
 def wave_arg(cell, synthesis):
-    """the `wave` constructor argument: a name, or a 4-tuple (col_lo, col_hi, row_lo, row_hi)"""
+    """the `wave` constructor argument in one of its documented forms: a name, a pywt.Wavelet object, a pair
+    (lo, hi) of lists or arrays, or a 4-tuple (col_lo, col_hi, row_lo, row_hi).  The form is a deterministic
+    function of the cell, so forward and inverse builders and replays agree."""
     if not cell.get('wave_row'):
-        return cell['wave']
+        import hashlib
+        h = int(hashlib.sha256(repr(sorted((k, str(v)) for k, v in cell.items())).encode()).hexdigest()[:6], 16) % 10
+        form = {0: 'object', 1: 'object', 2: 'pair of lists', 3: 'pair of arrays'}.get(h, 'name')
+        WAVE_FORMS[form] = WAVE_FORMS.get(form, 0) + 1
+        if form == 'name':
+            return cell['wave']
+        w = pywt.Wavelet(cell['wave'])
+        if form == 'object':
+            return w
+        lo, hi = (w.rec_lo, w.rec_hi) if synthesis else (w.dec_lo, w.dec_hi)
+        return (list(lo), list(hi)) if form == 'pair of lists' else (np.array(lo), np.array(hi))
+    WAVE_FORMS['4-tuple'] = WAVE_FORMS.get('4-tuple', 0) + 1
     wc, wr = pywt.Wavelet(cell['wave']), pywt.Wavelet(cell['wave_row'])
     if synthesis:
         return tuple(np.array(f) for f in (wc.rec_lo, wc.rec_hi, wr.rec_lo, wr.rec_hi))
@@ -132,7 +148,7 @@ def build(cell):
     import pytorch_wavelets as pw
     with util.default_dtype(torch.float64):
         if cell['dim'] == 1:
-            return pw.DWT1DForward(J=cell['J'], wave=cell['wave'], mode=lib_mode(cell))
+            return pw.DWT1DForward(J=cell['J'], wave=wave_arg(cell, False), mode=lib_mode(cell))
         return pw.DWTForward(J=cell['J'], wave=wave_arg(cell, False), mode=lib_mode(cell))
 
 
